@@ -3,7 +3,7 @@ import check_dyn
 
 ALLOWED_AXIOMS = []   # target: every property theorem is closed under the global context
 
-DYN_SIZES = {"quick": (260, (5, 40)), "thorough": (6000, (5, 120))}
+DYN_SIZES = {"quick": (260, (5, 40)), "thorough": (3000, (5, 100))}
 
 PROPS = {}
 
@@ -11,16 +11,16 @@ PROPS = {}
 def dyn_prop(pid, **kw):
     PROPS[pid] = dict(module=check_dyn, sizes=DYN_SIZES, coq_sample={"quick": 24, "thorough": 200},
                       search_rounds={"quick": 3, "thorough": 10},
-                      explore={"quick": (10, 250), "thorough": (120, 3000)}, **kw)
+                      explore={"quick": (10, 250), "thorough": (40, 1200)}, **kw)
 
 
-dyn_prop("C01", resync_fields={"state", "success", "flags"})
-dyn_prop("C02", resync_fields={"state", "success", "flags", "disc"})
-dyn_prop("C03", resync_fields={"state", "success", "disc", "reset"})
+dyn_prop("C01", resync_fields={"state", "success"})
+dyn_prop("C02", resync_fields={"state", "success"})
+dyn_prop("C03", resync_fields={"state", "success", "reset"})
 dyn_prop("C04", traj_fields={"state", "steps"}, resync_fields={"state", "reset"}, direct_fields={"steps", "reset"})
 dyn_prop("C05", resync_fields={"reward", "value", "state", "success"})
 dyn_prop("C06", traj_fields={"limit", "steps"}, resync_fields={"goal"}, direct_fields={"limit", "steps", "goal"})
-dyn_prop("C07", resync_fields={"success", "flags", "state", "used", "value"})
+dyn_prop("C07", resync_fields={"success", "state", "used", "value"})
 
 import check_api
 
